@@ -493,6 +493,32 @@ theorem rowControls_aligned (lists : List Str) (n : Nat) (r0 : Cells) (cs : List
             subst h
             exact ⟨k, hk, emitOut_tags _ _ _⟩
 
+/-- what `rowControls` returns when it answers: the pure emission `emitOut` of the row's classification on the
+    prepared cells, for parameters with distinct keys that passed the row's checks (the bridge for callers that
+    decorate the element tree with these attributes, e.g. `Pyxv.Convert.decorate` / `ownAttrs`) -/
+theorem rowControls_out (lists : List Str) (n : Nat) (r0 : Cells) (cs : List Controls.Ctl)
+    (h : rowControls lists n r0 = .ok cs) :
+    ∃ k ps, classify lists n (prep r0).1 = .row k ∧ keysNodupB ps = true ∧
+      emitChecks k (prep r0).1 ps = .ok () ∧ cs = emitOut k (prep r0).1 ps := by
+  unfold rowControls at h
+  simp only [] at h
+  split at h
+  · cases h
+  · split at h
+    · cases h
+    · rename_i k hk
+      split at h
+      · cases h
+      · rename_i ps hps
+        split at h
+        · cases h
+        · rename_i hn
+          split at h
+          · cases h
+          · rename_i u hu
+            injection h with h
+            exact ⟨k, ps, hk, by simpa using hn, by cases u; exact hu, h.symm⟩
+
 theorem allControls_aligned (lists : List Str) : ∀ (rows : List Cells) (n : Nat) (cs : List Controls.Ctl)
     (ks : List (Nat × RowK)), allControls lists n rows = .ok cs →
     classifyAll lists n (rows.map fun r => (prep r).1) = .ok ks → cs.map (·.1) = allRowTags ks := by
